@@ -1,7 +1,7 @@
 (* C09 — the class attribute, className, classList and the rendered HTML never diverge.
    The class list is [classes s]; className = join " " (classes s), classList = classes s, hasClass = membership
    are the model's definitions of those accessors (Model/Attr.v), tied to the code by the correspondence run. *)
-From AHP Require Import Model.Base Model.Str Model.Attr Proofs.StrProofs Proofs.AttrProofs Corr.Run_Attr.
+From AHP Require Import Model.Base Model.Str Model.Attr Proofs.StrProofs Proofs.AttrProofs Proofs.CodecProofs Corr.Run_Attr.
 
 (* a single name: addClass appends unless present, removeClass removes the first occurrence *)
 Theorem C09_addClass_single : forall fuel w l, stripWordsOnly w = w -> w <> "" -> has_char " " w = false ->
@@ -43,3 +43,17 @@ Proof. exact reachable_inv. Qed.
 Example C09_ex : let s := addClass " b  c " (fst (setitem "class" (Some "a  b") st0)) in
   classes s = ["a"; "b"; "c"] /\ start_attrs (sync s) = "class=""a b c""" /\ KeysOK s.
 Proof. vm_compute. split; [reflexivity|split; [reflexivity|constructor]]. Qed.
+
+(* className and classList are one state: assigning the element's own className back (what cloneNode, copy and unpickling do
+   through the attribute list) gives the same list, for every list of non-empty, space-free names whose first name does not
+   start and whose last name does not end with white space *)
+Theorem C09_className_round_trip : forall cl, GoodClasses cl -> words (join " " cl) = cl.
+Proof. exact words_join. Qed.
+Example C09_ex_good_classes : GoodClasses ["a"; "b-c"; "d"] /\ words " a  b-c d " = ["a"; "b-c"; "d"].
+Proof.
+  split; [|vm_compute; reflexivity]. split; [|split].
+  - repeat (constructor; [split; [discriminate | reflexivity]|]). constructor.
+  - reflexivity.
+  - reflexivity.
+Qed.
+
